@@ -136,7 +136,10 @@ def e2e(ctx):
             if prov == 'google' and kind != 'rename-fail':
                 # (folder creation is a resumable session too: aim at the file upload, i.e. past the first session)
                 ep, nth = ['session-put', 'get-file', 'patch', 'session-start'][nth % 4], 2 if nth % 4 in (0, 3) else 1
-            plans.append((prov, 'remote', {'fault': kind, 'match': {'provider': prov, 'endpoint': ep, 'nth': nth}, 'after_bytes': 100}))
+            rule_ = {'fault': kind, 'match': {'provider': prov, 'endpoint': ep, 'nth': nth}, 'after_bytes': 100}
+            if kind == 'emptytext':         # (the emulator's kind is `text` with an empty body)
+                rule_.update({'fault': 'text', 'body': ''})
+            plans.append((prov, 'remote', rule_))
         plans += [(prov, 'gpg-absent', None), (prov, 'gpg-dies', None), (prov, 'gpg-killed', None), (prov, 'unreadable', None)]
     if ctx.tier == 'quick':
         plans += [('yandex', 'remote', {'fault': 'corrupt', 'match': {'provider': 'yandex', 'endpoint': 'upload-data', 'nth': 1}}),
